@@ -533,6 +533,49 @@ def cases_c08(rng, thorough):
     return cases
 
 
+PLAIN_BRANCHES = ['stream', 'scan', 'filter_lt', 'filter_ge', 'even', 'count', 'reduce', 'to_list',      # (no last: RxPY raises on an empty sequence)
+                  'dupl', 'take1', 'ident', 'opt']
+
+
+def plain_tee_traces(tee, items):
+    """one PlainTrace execution per branch of a tee_map run on a plain observable: the branch,
+    as observed at its tail inside the tee_map, against the plain semantics of that pipeline"""
+    logs, out = M.run_plain_tee(tee, items)
+    return [{'pipe': b, 'modeled': True, 'oracle': 'plain-sem',
+             'groups': [{'items': items, 'mux': [], 'muxerr': 0, 'plain': log['out'],
+                         'plainend': log['end'], 'plainerr': 0}]}
+            for b, log in zip(tee['branches'], logs)], out
+
+
+def extra_c08_plain(V, rng, thorough, stats):
+    """Plain mode: every branch of a tee_map receives the source's items and its completion,
+    whatever the other branches do (a branch that ends early, a branch that never emits): at
+    its tail it delivers what the same pipeline delivers alone, and it completes."""
+    names = PLAIN_BRANCHES + ['never']
+    mk = lambda n: [G.op_filter('false')] if n == 'never' else BRANCHES[n]()
+    traces, meta = [], []
+    for _ in range(240 if thorough else 60):
+        tee = G.op_tee(rng.choice(['zip', 'zip', 'merge', 'combine_latest']),
+                       [mk(rng.choice(names)) for _ in range(rng.choice([2, 2, 3]))])
+        items = G.ints([rng.randint(0, 4) for _ in range(rng.randint(0, 6))])
+        trs, out = plain_tee_traces(tee, items)
+        for bi, t in enumerate(trs):
+            traces.append(t)
+            meta.append((tee, items, bi, out))
+    verdicts, st = C.validate_traces('PlainTrace', traces)
+    for k in ('states', 'transitions', 'tlc_runs'):
+        stats[k] = stats.get(k, 0) + st[k]
+    stats['traces'] = stats.get('traces', 0) + len(traces)
+    stats['plain_tee_branch_traces'] = len(traces)
+    for t, v, (tee, items, bi, out) in zip(traces, verdicts, meta):
+        if v[0] == 'REJECT':
+            V.violation({'family': 'C08', 'ops': ' '.join(MC.op_names([tee])), 'pipe': json.dumps([tee], sort_keys=True),
+                         'mode': 'plaintee', 'src': items, 'branch': bi + 1,
+                         'branch_delivered': t['groups'][0]['plain'], 'branch_end': t['groups'][0]['plainend']},
+                        'tee-plain-branch-' + str(v[2]),
+                        detail='branch %d of the tee_map on a plain observable: %s' % (bi + 1, v[2]))
+
+
 def relevant_c08(n):
     return n.startswith('tee-')
 
@@ -1400,6 +1443,7 @@ def extra_c08(V, rng, thorough, stats):
         t = G.op_tee(rng.choice(['merge', 'zip', 'combine_latest']), [rng.choice(agnostic) for _ in range(rng.choice([2, 3]))])
         cases.append(([t], [rng.choice(OPAQUE) for _ in range(rng.randint(1, 6))]))
     judge_plain(V, 'C08', plain_sem_traces(cases), stats)
+    extra_c08_plain(V, rng, thorough, stats)
 
 
 # ======================================================================= implementation model
